@@ -93,13 +93,21 @@ func (s *Server) verifCommand(msg *Message) (res resp.Value, err error, ok bool)
 	}
 	// groups: both trees hold the same items; each refers to a live hook and
 	// a live object
+	s.groupMu.Lock()
 	if s.groupHooks.Len() != s.groupObjects.Len() {
 		bad("groupHooks holds %d items, groupObjects %d", s.groupHooks.Len(), s.groupObjects.Len())
 	}
+	s.groupMu.Unlock()
+	s.groupMu.Lock()
 	s.groupHooks.Ascend(nil, func(v interface{}) bool {
 		g := v.(*groupItem)
 		if got, _ := s.groupObjects.Get(g).(*groupItem); got != g {
 			bad("group item %s/%s/%s is missing from groupObjects", g.hookName, g.colKey, g.objID)
+		}
+		if g.hookName == "" {
+			// live fence connections share the empty hook name and are not
+			// registered in s.hooks; their items are not audited further
+			return true
 		}
 		if s.hooks.Get(&Hook{Name: g.hookName}) == nil {
 			bad("group item refers to missing hook %q", g.hookName)
@@ -110,6 +118,7 @@ func (s *Server) verifCommand(msg *Message) (res resp.Value, err error, ok bool)
 		}
 		return true
 	})
+	s.groupMu.Unlock()
 	sort.Strings(out)
 	vals := make([]resp.Value, len(out))
 	for i, p := range out {
